@@ -58,6 +58,9 @@ fn exchange(server: &pp::Server, md: u8, input: &[u8], b: &Blind, verifiable: bo
   }
   let r = guard(|| {
     let (blinded, r) = pp::Client::blind(input);
+    // every other request carries the blinding factor through its public conversions while the
+    // request is in flight (CurveScalar -> Scalar -> bytes -> CurveScalar)
+    let r = if verifiable { r } else { pp::CurveScalar::from(Scalar::from(r).to_bytes()) };
     getrandom::verif::clear_script();
     let ev = server.eval(&blinded, md, verifiable).map_err(|e| format!("eval: {}", e))?;
     if verifiable && !pp::Client::verify(&server.get_public_key(), &blinded, &ev, md) {
@@ -219,10 +222,10 @@ fn run_puncture_stability(cx: &mut CaseCx, case: &Value) {
   }
   // puncture orders: ascending, descending, and rotations of the tag list
   let mut order = tags.clone();
-  match case["order"].as_u64().unwrap() {
-    0 => {}
-    1 => order.reverse(),
-    k => order.rotate_left(k as usize % tags.len()),
+  let o = case["order"].as_u64().unwrap() as usize;
+  order.rotate_left(o % tags.len());
+  if o >= tags.len() {
+    order.reverse();
   }
   let mut punctured: Vec<u8> = vec![];
   for &p in &order {
@@ -387,7 +390,7 @@ pub fn spec() -> PropSpec {
     checks: vec![
       Check {
         name: "exchanges",
-        rule: "per server (tag lists [0,1,7,255], [7,3] unsorted, [1,1,2] with a repeat, [255,128,0], [9]; thorough: 3 keys each): every registered tag x 14 inputs (empty, 1 byte, 64 B, 4 KiB, pairs sharing a 39-byte / 4095-byte prefix requested back-to-back in both orders) x 7 blindings (crafted 1, 2, l-1, 2^252; 3 fresh) x {verifiable, not}: unblinded == server's evaluation of the input point == (k+PRF(tag))^-1 H(input); finalised output equal across all requests; injective over (tag, input); requests fresh and != input point; distinct = exchanges",
+        rule: "per server (tag lists [0,1,7,255], [7,3] unsorted, [1,1,2] with a repeat, [255,128,0], [9]; thorough: 3 keys each): every registered tag x 14 inputs (empty, 1 byte, 64 B, 4 KiB, pairs sharing a 39-byte / 4095-byte prefix requested back-to-back in both orders) x 7 blindings (crafted 1, 2, l-1, 2^252; 3 fresh) x {verifiable, not; the non-verifiable requests carry the blinding factor through its public scalar/byte conversions before unblinding}: unblinded == server's evaluation of the input point == (k+PRF(tag))^-1 H(input); finalised output equal across all requests; injective over (tag, input); requests fresh and != input point; distinct = exchanges",
         gen: |tier| {
           let mut v = vec![];
           for t in 0..tag_lists().len() {
@@ -402,10 +405,10 @@ pub fn spec() -> PropSpec {
       },
       Check {
         name: "puncture-history",
-        rule: "server with tags {0,1,2,6,7,64,128,192,255}: all tags punctured one by one in 6 orders; after every puncture every remaining tag still finalises to its original output, verifiable and not",
-        gen: |_| (0..6u64).map(|o| json!({"order": o})).collect(),
+        rule: "server with tags {0,1,2,6,7,64,128,192,255}: all tags punctured one by one in 18 orders (every rotation of the tag list, forwards and reversed); after every puncture every remaining tag still finalises to its original output, verifiable and not",
+        gen: |_| (0..18u64).map(|o| json!({"order": o})).collect(),
         run: run_puncture_stability,
-        min_counts: &[("stable_outputs", 200)],
+        min_counts: &[("stable_outputs", 1000)],
       },
       Check { name: "repeated-requests", rule: "300 consecutive requests for two alternating inputs on one thread under fresh entropy: all blinded points pairwise distinct", gen: |_| vec![json!({})], run: run_freshness, min_counts: &[("fresh_requests", 300)] },
       Check {
